@@ -22,7 +22,7 @@ type GenOpts struct {
 	// NoSizeClasses switches off the occasional large message (17/33/70 trips, updates, selectors or alerts).
 	NoSizeClasses bool
 	// lower bounds (0 by default)
-	MinTrips, MinVehicles, MinAlerts, MinSTU, MinSelectors int
+	MinTrips, MinVehicles, MinAlerts, MinSTU, MinSelectors, MinIdless int
 }
 
 func DefaultGenOpts(zone string) GenOpts {
@@ -116,7 +116,7 @@ func GenTripDesc(t *rapid.T, idx int, zone string) TripDesc {
 			*d.TripID = fmt.Sprintf(*d.TripID, idx)
 		}
 		if rapid.Bool().Draw(t, "route?") {
-			d.RouteID = P(rapid.SampledFrom([]string{"R", "M", "7X", "r 1"}).Draw(t, "route"))
+			d.RouteID = P(rapid.SampledFrom([]string{"R", "M", "7X", "r 1", "m", "M "}).Draw(t, "route"))
 		}
 	case mode <= 8: // no trip id, unique route id
 		d.RouteID = P(fmt.Sprintf("R%s%d", base, idx))
@@ -325,7 +325,7 @@ func GenMsg(t *rapid.T, o GenOpts) (*Msg, MsgInfo) {
 	}
 	nT := rapid.IntRange(o.MinTrips, o.MaxTrips).Draw(t, "nTrips")
 	nV := rapid.IntRange(o.MinVehicles, o.MaxVehicles).Draw(t, "nVehicles")
-	nI := rapid.IntRange(0, o.MaxIdless).Draw(t, "nIdless")
+	nI := rapid.IntRange(o.MinIdless, max(o.MinIdless, o.MaxIdless)).Draw(t, "nIdless")
 	trips := make([]TripDesc, nT)
 	for i := range trips {
 		trips[i] = GenTripDesc(t, i, o.Zone)
